@@ -270,6 +270,59 @@ fn attack_point(
             }
         }
     }
+    // c5: section grafts - sections of two different proofs combined into one: a forged block section
+    // attached to an honest proof that has none (hash-only, upgrade-only, seek-only), with empty nodes
+    // and with the honest nodes of the writer's own proof for that block
+    if pp.block.is_none() && wl > 0 {
+        let rl = rm.length;
+        let covered_after = if pp.upgrade.is_some() { wl } else { rl };
+        let mut idxs: Vec<u64> = vec![0, rl.saturating_sub(1), rl, rl + 1, covered_after.saturating_sub(1)];
+        if let Some(h) = &pp.hash {
+            if h.index % 2 == 0 {
+                idxs.push(h.index / 2);
+            }
+            idxs.push(crate::reftree::left_span(h.index) / 2);
+        }
+        idxs.retain(|i| *i < wl);
+        idxs.sort();
+        idxs.dedup();
+        for i in idxs {
+            let genuine = sim.wblocks[i as usize].clone();
+            let honest_nodes: Vec<PNode> = {
+                let w = sim.w.core();
+                let up = c.upgrade.clone();
+                match catch(|| block_on(w.create_proof(Some(hypercore::RequestBlock { index: i, nodes: 0 }), None, None, up))) {
+                    Ok(Ok(Some(p))) => PProof::from_proof(&p).block.map(|b| b.nodes).unwrap_or_default(),
+                    _ => vec![],
+                }
+            };
+            for (vi, value) in [substitute(&genuine, 0), substitute(&genuine, 1)].into_iter().enumerate() {
+                for (ni, nodes) in [vec![], honest_nodes.clone()].into_iter().enumerate() {
+                    if ni == 1 && nodes.is_empty() {
+                        continue;
+                    }
+                    let mut q = pp.clone();
+                    q.block = Some(PBlock { index: i, value: value.clone(), nodes });
+                    n += 1;
+                    local.evals += 1;
+                    local.class("section_grafts");
+                    local.nontrivial(&(hash_of(&pp), "graft-block", i, vi, ni));
+                    attack_one(sim, &pt, &q.to_proof(), &format!("honest proof for {c:?} with a forged block section grafted on (block {i}, value variant {vi}, {} nodes)", if ni == 0 { "no" } else { "honest" }), n, local, stats)?;
+                }
+            }
+        }
+    }
+    // a hash section of an earlier honest proof grafted onto a block proof
+    if pp.block.is_some() && pp.hash.is_none() {
+        for old in earlier.iter().rev().filter(|p| p.hash.is_some()).take(2) {
+            let mut q = pp.clone();
+            q.hash = PProof::from_proof(old).hash;
+            n += 1;
+            local.evals += 1;
+            local.class("section_grafts");
+            attack_one(sim, &pt, &q.to_proof(), &format!("honest block proof for {c:?} with the hash section of an earlier proof grafted on"), n, local, stats)?;
+        }
+    }
     // c3: genuine proof with the genuine writer's signature for another length
     if let Some(gu) = &pp.upgrade {
         for (len, sig) in sigs.iter().filter(|(_, s)| *s != gu.signature).take(3) {
@@ -351,7 +404,8 @@ pub fn run(ctx: &Ctx) {
          drop/dup/swap/insert at every position, removal of each section; the size fields of the bottom node of a hash-only section \
          and of a seek section are excluded by construction and counted), (b) random combinations of 2-4 alterations, (c) systematic \
          forgeries (second writer with another key and a substituted block: whole proof, block section only, signatures exchanged; \
-         the genuine writer's signature for another length; older genuine proofs replayed). Oracle: refused => observation and \
+         the genuine writer's signature for another length; older genuine proofs replayed; section grafts: a forged block section \
+         attached to an honest hash-/upgrade-/seek-only proof, a foreign hash section attached to a block proof). Oracle: refused => observation and \
          stored state unchanged; accepted => every held block equals the writer's, (length, byte length) is a pair the writer \
          signed, and honest replication still converges. Non-trivial = alteration of an authenticated field (everything except \
          seek.bytes and section removal); distinct = (honest proof, alteration).",
